@@ -33,7 +33,7 @@ CLAIMS["C01"] = dict(
          "intersection corrected into its scanbeam stays on an edge (x recomputed at the clamped y); (6) whoever may modify the local-minima list "
          "invalidates its 'sorted' flag; (7) GetSegmentIntersectPt, in both precision build options, stores - as a real-number formula - the "
          "crossing point of the two lines, and TopX is the x of the line through bot and top at the given y, shortcuts included (identities of "
-         "polynomial normal forms, engine E14). "
+         "polynomial normal forms, engine E14); (8) Intersect / Union / Difference / Xor / BooleanOp return what the sweep produced, never an input. "
          "A wrong reachable cell is a wrong region for some input in general position; the "
          "converse (the behaviour of C01) is NOT decided.",
     note="Assumes the code's stated invariants for wind_cnt / wind_cnt2 and that AEL neighbours are the geometric neighbours. AEL ordering, "
@@ -74,7 +74,7 @@ CLAIMS["C07"] = dict(
     text="Three necessary structural clauses decided statically: (i) no member/outer local written while offsetting one path or group is read "
          "while offsetting the next (E2 loop rule, with and without delta callback); (ii) outside the EndType::Polygon branch delta is only read "
          "through abs(), hence +delta == -delta by construction; (iii) start/end cap dispatch tables extracted by interpreting both switches for "
-         "every EndType equal Butt->DoBevel(i,i), Round->DoRound(i,i,PI), Square->DoSquare(i,i) and agree at both ends; (iv) Group::Group strips a "
+         "every value of the per-path end type end_type_ (not the group's own field) equal Butt->DoBevel(i,i), Round->DoRound(i,i,PI), Square->DoSquare(i,i) and agree at both ends; (iv) Group::Group strips a "
          "closing vertex only for the closed end types Polygon and Joined (for open ends it is the end point of the last segment); (v) every function of "
          "the offsetter computes the same x/y with and without USINGZ (sibling identity modulo Z erasure); (vi) the miter threshold derived from "
          "MiterLimit is re-derived by every Execute before a join reads it (the join factor bound is the one of the limit in force); (vii) the join "
@@ -92,7 +92,7 @@ CLAIMS["C17"] = dict(
          "stored count counts exactly the written records; the first element is the allocated length; (FORWARD) each of the 76 exported parameters "
          "reaches the native parameter of its meaning, resolved by declaration (constructor slots judged by parameter name), none of another meaning, "
          "none dropped; (SCALE) dimensional analysis of the D exports; (Z-CODEC, USINGZ) every store of Z into a slot and every load from it is a "
-         "bit copy (Reinterpret or same type) so that writers and readers agree; (CURSOR) every call of a writer advances the caller's write position "
+         "bit copy (Reinterpret or same type) so that writers and readers agree; (UNCONDITIONAL) whether a geometry input is handed to the native object depends on that input only; (CURSOR) every call of a writer advances the caller's write position "
          "(cursor by reference, or returned position stored back). A layout mismatch is simultaneously a round-trip failure and an out-of-bounds access.",
     note="Does not decide that the native call returns the right result. Shapes outside the supported loop nest make the run analysis-broken (exit 2).",
     technique="static analysis: symbolic element-count shapes of marshalling code + parameter-flow forwarding table + dimensional analysis",
@@ -125,7 +125,7 @@ CLAIMS["C08"] = dict(
          "while clipping one path is read while clipping the next and the scratch containers are empty at every exit ('path by path'); GetLocation's "
          "25-cell table; the side arithmetic (GetAdjacentLocation, HeadingClockwise, AreOpposites, StartLocsAreClockwise) on its whole four-element "
          "domain; GetNextLocation's per-side dispatch on every ordering of the next vertex against the rectangle (first side crossed wins in the "
-         "documented order); GetBounds considers every vertex for min and max; the segment scan starts at the first segment on every path.",
+         "documented order); GetBounds considers every vertex for min and max; the segment scan starts at the first segment on every path; GetSegmentIntersection's touching cases store an end point that lies on both lines (engine E14).",
     note="The location state machine, corner insertion and TidyEdges (the behaviour for crossing paths) are NOT decided.",
     technique="static analysis: abstract interpretation over orderings + loop-carried-state dataflow",
     design="§3 E3/E2, §4 C08", engine="E3")
@@ -135,8 +135,9 @@ CLAIMS["C09"] = dict(
          "added as 'inside' is inside); the bounding-box predicates are exact and RectClipLines64::Execute uses them as 'empty rectangle -> nothing, "
          "boxes disjoint -> skip', appending pieces path by path in the order found; the crossing dispatch of ExecuteInternal starts a new piece "
          "exactly where the polyline enters the rectangle (all 24 location pairs; the pass-through case takes its first crossing from the far "
-         "end of the segment); nothing written while clipping one polyline is read while clipping the next.",
-    note="Partial: where the cuts are (GetIntersection, rounding), GetNextLocation's scan, the vertex order inside a piece and every tolerance of "
+         "end of the segment); nothing written while clipping one polyline is read while clipping the next; the cut itself, as a real-number formula: GetSegmentIntersectPt's "
+         "point lies on both lines and GetSegmentIntersection's touching cases store an end point that lies on both lines (engine E14).",
+    note="Partial: which rectangle edge GetIntersection tries, rounding, GetNextLocation's scan, the vertex order inside a piece and every tolerance of "
          "the statement (1.5 / 1 / 2 units) are NOT decided - the numeric content of C09 is out of reach of static analysis here.",
     technique="static analysis: abstract interpretation over orderings and the Location enum + loop-carried-state dataflow",
     design="§3 E3/E2, §4 C09, §9.1", engine="E3")
@@ -148,7 +149,7 @@ CLAIMS["C13"] = dict(
          "y' (z ignored) so duplicate / closing vertices are recognised; the closing-vertex test compares with the first vertex of the same path; twin "
          "x/y locals read mirrored coordinates (transposition); no signed 64-bit products, no single-precision floating point (integer scaling); "
          "the cross-product predicates and the segment intersection are the textbook polynomials (engine E14), hence equivariant under "
-         "translation, transposition and scaling as real-number formulas.",
+         "translation, transposition and scaling as real-number formulas; the boolean convenience functions never hand a path parameter back as the result.",
     note="Permutation/rotation invariance of the sweep (IsValidAelOrder tie-breaking) and the algebraic identities are NOT decided.",
     technique="static analysis: table symmetries on the abstractly interpreted decision function + comparator axioms by exhaustive interpretation",
     design="§3 E3, §4 C13", engine="E3")
@@ -168,7 +169,7 @@ CLAIMS["C18"] = dict(
     category="other",
     text="Static decision of necessary clauses on both multiplication code paths (the portable one is forced into an analysed configuration): no "
          "floating-point expression in CrossProductSign / ProductsAreEqual / IsCollinear / TriSign / Multiply and products only in 128 bits; the "
-         "portable sign logic equals sign(sign_ab*|ab| - sign_cd*|cd|) on every consistent cell; Multiply's partial sums cannot wrap (interval proof); "
+         "portable sign logic equals sign(sign_ab*|ab| - sign_cd*|cd|) on every consistent cell; Multiply's partial sums cannot wrap (interval proof that follows branches and refines the operand intervals by their guards); "
          "no signed 64-bit product and no single-precision floating point anywhere; PointInPolygon's wrap-around predecessor is the container's last "
          "vertex on all reaching definitions; twin x/y locals (incl. the HI_PRECISION GetSegmentIntersectPt) read mirrored coordinates; "
          "engine E14 (identities of polynomial normal forms): the two compared products of CrossProductSign / IsCollinear / ProductsAreEqual differ by "
@@ -185,7 +186,8 @@ CLAIMS["C03"] = dict(
     text="Static decision of the structural part for all inputs: every closed path is built by CleanCollinear -> BuildPath with reverse_solution_ "
          "(must-precede dataflow over all 7 builder call sites); CleanCollinear's removal condition table; BuildPath's degenerate-ring guard table and "
          "duplicate-skipping copy loop; option members written only by their setters; OutRec::path built only in CheckBounds; D builders equal 64 builders; "
-         "IsCollinear / CrossProduct / DotProduct (the collinearity and spike tests) are the textbook polynomials (engine E14).",
+         "IsCollinear / CrossProduct / DotProduct (the collinearity and spike tests) are the textbook polynomials (engine E14); the builders' index loops "
+         "over outrec_list_ re-read its size, so rings split off while building are cleaned and emitted too.",
     note="Bounding box, zero area, spikes, crossings, orientation-vs-nesting, collinearity of the result and idempotence under Union are NOT decided.",
     technique="static analysis: must-precede dataflow + interpreted condition tables + sibling identity",
     design="§3 E10/E3/E6, §4 C03", engine="E10")
@@ -195,7 +197,7 @@ CLAIMS["C04"] = dict(
          "the same calls with the same arguments, and every branch on using_polytree_ writes only ownership fields (owner, splits, recursive_split, "
          "polypath, OutPt::outrec), callees included (effect confinement; one reasoned exception). Path1InsidePath2's vertex vote (step and verdict for every count: a lead of two is decisive, only an equivocal count uses the "
          "bounding-box midpoint); OutRec::splits lists only grow (never overwritten); Rect::Contains, the owner search's pre-filter, is closed "
-         "inclusion on every ordering.",
+         "inclusion on every ordering; the builders' index loops over outrec_list_ re-read its size (rings split off while building are emitted in both modes).",
     note="That the owners are right (containment, depth alternation, area equality) is NOT decided.",
     technique="static analysis: effect confinement of option-controlled regions + pipeline identity",
     design="§3 E10, §4 C04", engine="E10")
@@ -220,7 +222,8 @@ CLAIMS["C20"] = dict(
     text="Static decision of necessary clauses: TrimCollinear, SimplifyPath, RamerDouglasPeucker and StripNearEqual append only elements of the "
          "input (never a computed vertex), inside loops through forward-only cursors; keep/remove flags are monotone; StripDuplicates only erases; "
          "TrimCollinear's corner test is made against the last kept vertex; SimplifyPath's pinned end distances are never overwritten; every "
-         "distance/epsilon comparison of SimplifyPath and RDP draws the line at 'removable iff distance <= epsilon'; GetBounds' min/max update table; "
+         "distance/epsilon comparison of SimplifyPath and RDP draws the line at 'removable iff distance <= epsilon'; GetBounds' min/max update table; every argument bound to an epsilon / squared-epsilon parameter has that degree; Ellipse and TranslatePath "
+         "satisfy their defining formulas; "
          "PerpendicDistFromLineSqrd, DistanceSqr and IsCollinear are their defining polynomials (engine E14). "
          "The one flag-clearing site (RDP) is a genuine defect recorded as a known finding (D11).",
     note="Epsilon guarantees, area preservation, idempotence and the exact corner set are NOT decided.",
@@ -236,7 +239,8 @@ CLAIMS["C06"] = dict(
          "paths_reversed), PreserveCollinear), the insignificant-delta shortcut, the sign of the group delta for every end type, the "
          "definition of a reversed group, the output target set by every Execute overload, closing-vertex stripping per end type, x/y identical "
          "with and without USINGZ in every offsetter function, the join formulas as polynomial normal forms and the join dispatch on convex "
-         "vertices (Miter within the limit else Square; Round; Bevel; Square), and "
+         "vertices (Miter within the limit else Square; Round; Bevel; Square), no return before the clean-up union except on 'no input / no "
+         "output / error', and "
          "independence of the groups of one ClipperOffset (loop-carried-state dataflow); tables extracted by interpreting the AST over the complete finite domain of the flags.",
     note="What the joined offset curves enclose - tolerance bands, the square join's corner construction (DoSquare), concave vertices, shrinking "
          "beyond the inradius - is NOT decided; the formulas are decided as real-number formulas, not their floating-point evaluation.",
